@@ -52,9 +52,9 @@ def fmt_queries(tier):
                 for n in range(1, NMAX + 1):
                     if mode == 1 and n < 2: continue
                     m = n + 8
-                    b = {'draw|fill': n + 1, 'ref_round|parse': m, 'h_fixed': 7, 'formatStringNumberFixed|roundStringNumber': m, 'Write': m, 'Reverse': m, 'InsertAt': m,
+                    b = {'draw|fill': n + 1, 'ref_round|ref_text': m, 'h_fixed': 7, 'formatStringNumberFixed|roundStringNumber': m, 'Write': m, 'Reverse': m, 'InsertAt': m,
                          'insertZerosLarge': 2}
-                    ex = ['C10-prec0-dot', 'C10-trim-integer-zeros']
+                    ex = ['C10-prec0-dot', 'C10-trim-integer-zeros', 'C10-tie-leading-zeros', 'C10-prec0-round-to-one']
                     qs.append(Query('fmt/%s/%s/mode%d/n%d' % ('fixed' if fixed else 'semifixed', ch, mode, n), 'C10_fmt.cpp', 'h_fixed',
                                     kf({'NDIG': n, 'MODE': mode, 'FIXED': fixed, 'CHAR': ch}, ex), bounds=b, cflags=PRIV, kf_excl=ex, timeout=600, mem_gb=8))
     return qs
